@@ -9,6 +9,12 @@ import numpy as np
 ACCESSIONS = ["ref|GENE{a}", "ref|GENE{b}", "ens|ENST{n:05d}", "mRNA|JX{n:05d}", "ccds|CCDS{n}.1"]
 
 
+def _nozyg(vdf):
+    df = vdf.drop(columns=[c for c in ("zygosity", "n_zygosity") if c in vdf.columns])
+    df = df.sort_values(["chromosome", "start"], kind="mergesort", ascending=[False, True])
+    return df.set_axis(df.index * 2 + 3)
+
+
 def gen_world(tape, tier):
     import pandas as pd
     from cnvlib.cnary import CopyNumArray as CNA
@@ -255,6 +261,9 @@ def gen_world(tape, tier):
         "varr": VA(vdf, {"sample_id": "S1"}),
         # what load_het_snps returns when no record passes its filters: a table without rows
         "varr_empty": VA(vdf.iloc[0:0].reset_index(drop=True), {"sample_id": "S1"}),
+        # allele frequencies only (no genotype columns), rows in the lexical chromosome order of a
+        # plain-sorted VCF and carrying the row labels of an earlier subsetting
+        "varr_nozyg": VA(_nozyg(vdf), {"sample_id": "S1"}),
         "baits_chr1": GA(b1.reset_index(drop=True), {"sample_id": "baits"}),
         "baits": GA(baits_df, {"sample_id": "baits"}),
         "access": GA(frame(access_rows, ["chromosome", "start", "end"]), {"sample_id": "access"}),
